@@ -186,7 +186,8 @@ def specParam (f : Field) : Param :=
   if specRequired f then ⟨f.name, none⟩ else ⟨f.name, some (specDefault f)⟩
 
 theorem fieldParam_spec (f : Field)
-    (hwt : ∀ uns uname tag, f.dflt = some (.tag uns uname tag) → specUnalias f.ty = .union uns uname) :
+    (hwt : ∀ uns uname tag, f.dflt = some (.tag uns uname tag) → specUnalias f.ty = .union uns uname)
+    (hpr : ∀ s, f.dflt = some (.str s) → pformatWraps s = false) :
     fieldParam f = .ok (specParam f) := by
   unfold fieldParam specParam specRequired specDefault
   simp only [stripFirst_nullable]
@@ -206,11 +207,17 @@ theorem fieldParam_spec (f : Field)
       | bool b => simp [genPythonValue, bind, Except.bind, pure, Except.pure]
       | int i => simp [genPythonValue, bind, Except.bind, pure, Except.pure]
       | float x => simp [genPythonValue, bind, Except.bind, pure, Except.pure]
-      | str s => simp [genPythonValue, bind, Except.bind, pure, Except.pure]
+      | str s => simp [genPythonValue, hpr s hd, bind, Except.bind, pure, Except.pure]
 
 theorem wellTyped_field {api : Api} {r : Ref} (h : defaultsWellTyped api r = true) {f : Field} (hf : f ∈ declFields api r) :
     ∀ uns uname tag, f.dflt = some (.tag uns uname tag) → specUnalias f.ty = .union uns uname := by
   intro uns uname tag hd
+  have := (List.all_eq_true.mp h) f hf
+  simpa [hd] using this
+
+theorem printable_field {api : Api} {r : Ref} (h : defaultsPrintable api r = true) {f : Field} (hf : f ∈ declFields api r) :
+    ∀ s, f.dflt = some (.str s) → pformatWraps s = false := by
+  intro s hd
   have := (List.all_eq_true.mp h) f hf
   simpa [hd] using this
 
